@@ -4,7 +4,7 @@
 MODEL_VO = ['gen/Consts.vo', 'gen/CrcTables.vo', 'model/Bytes.vo', 'model/Codec.vo', 'model/Order.vo', 'model/Crc.vo',
             'model/Block.vo', 'model/Writer.vo', 'model/WriteLoop.vo', 'spec/Leb128.vo', 'spec/Parse.vo', 'model/Reader.vo']
 # OCaml modules of the driver, in link order
-OCAML_MODULES = ['common', 'gen', 'enc', 'c16', 'wr', 'c20', 'rd', 'c19', 'main']
+OCAML_MODULES = ['common', 'gen', 'enc', 'c16', 'wr', 'c20', 'rd', 'c19', 'c17', 'main']
 C_VARIANTS_SETUP = ('all',)
 EXTRA_BUILDS = []
 COQ_TIMEOUT = 3000
@@ -83,6 +83,12 @@ PROPS = {
         'assumptions': ['PARTIAL: T11_any_layout_partial (block iterator correct for any legal restart positions / sharing); decoding bytes into blocks and the index hand-over of C11_statement are validated by engine rd on encoder-made v1/v2 files',
                         '64-bit restart arrays (blocks above 4 GiB) are modelled (block_init arithmetic) but not executed'],
         'explanation': 'Files from an independent encoder with random legal layouts (format v1 and v2, arbitrary block boundaries, restart positions, non-maximal sharing, shortened separators, compression) are read by implementation and model: iteration, lookups, seek histories.',
+    },
+    'C17': {
+        'engines': [{'name': 'c17', 'timeout_quick': 600, 'timeout_thorough': 7200}],
+        'trusted_base': ['crc32{b,w,l,q} instruction semantics (Intel SDM): byte-wise accumulation of a little-endian operand', 'the little-endian branch of crc32c-slicing.c is the one compiled (config.h: WORDS_BIGENDIAN undefined)'],
+        'assumptions': ['bytes < 256', 'the one-time dispatch (constructor / my_crc32c_first) is outside the model: both implementations and the dispatcher are called directly by the driver'],
+        'explanation': 'T17a/T17b: the slicing-by-8 model (8x256 tables and lookup pattern scraped from the source, checked by finite computation and GF(2)-linearity of the shift register) and the SSE4.2 model (tail switch scraped from the source; shown to read every tail byte once, in order) equal the bit-serial CRC-32C for every byte string and alignment; T17c pins the standard by the check value and the RFC 3720 vectors.',
     },
     'C19': {
         'engines': [{'name': 'c19', 'timeout_quick': 600, 'timeout_thorough': 7200}],
